@@ -12,19 +12,30 @@ from checks import fs_lattice as L
 
 PROP = "C16"
 LEVEL = "exploration"
-RULE = ("9 templates (flat, year dir, y/m/d, y/m/d/h, fixed dir, discrete, "
-        "user placeholder in file name, full end under day dirs, coverage "
-        "from time_coverage=9 h) + a "
-        "single-file fileset x 3 windows x populations (whole pool; every "
-        "subset of size <=3 of the 7-9 file pool; quick: size <=2 in the year-end window, singles in the others) x "
+RULE = ("14 templates (flat, year dir, y/m/d, y/m/d/h, fixed dir, discrete, "
+        "user placeholder in file name / as top dir / as dir below the day, "
+        "full end under day dirs, coverage from time_coverage=9 h, y/doy, "
+        "year2/doy, wildcard+time_coverage) + a single-file fileset x 3 "
+        "windows x populations (whole pool; the empty population in "
+        "existing empty directories; every subset of size <=3 of the 6-9 "
+        "file pool, <=2 for the two templates with a user-placeholder "
+        "directory; quick: size <=2 in the year-end window, singles in the "
+        "others; the last three templates singles in one window, the "
+        "two with a user-placeholder directory only the whole and the "
+        "empty population in one window) x "
         "every lattice instant and the instant +- one name-resolution unit x "
-        "{no filter, white, black (user-placeholder template; also on a "
+        "{no filter, white, black (user-placeholder templates; also on a "
         "FileSet object that answered a query with other filter values "
-        "before), each file "
-        "excluded by name, for each file a period excluded that lies "
-        "inside its coverage after its start}; find_closest and fileset[t] / fileset[t, "
-        "filters]. Non-trivial = the neighbourhood holds >= 2 candidate "
-        "files, or no file covers t; distinct by construction.")
+        "before), each file excluded by name, for each file a period "
+        "excluded that lies inside its coverage after its start}; whole "
+        "pool, the empty and the single-file populations (thorough: all) "
+        "also with the user placeholder declared as the literal `A` x {no "
+        "filter, black=A, black=B} and as `A|B` x black=A; whole pool and "
+        "single-file fileset also with t handed over as full ISO string / "
+        "shortest documented string / pandas.Timestamp / numpy.datetime64; "
+        "find_closest and fileset[t] / fileset[t, filters]. Non-trivial = "
+        "the neighbourhood holds >= 2 candidate files, or no file covers t; "
+        "distinct by construction.")
 ASSUMPTIONS = [
     "timestamps at the resolution of the file names (minutes; seconds for "
     "the hour-level template)",
@@ -33,30 +44,29 @@ ASSUMPTIONS = [
     "neighbourhood is closed); month-level directories (28-31 day periods) "
     "are not generated",
     "all minimisers / all covering files are accepted",
+    "a numpy.datetime64 may be refused with TypeError (only datetime and "
+    "str are documented for find_closest), but not answered differently",
+    "a white-list value outside a literal placeholder declaration is not "
+    "enumerated (the statement does not say which of the two wins); the "
+    "single-file fileset is asked without filters and exclusion (the "
+    "statement lets it answer with its file always) and the type of its "
+    "answer (str) is not judged",
 ]
 
 TNAMES = ["flat", "year", "ymd", "ymdh", "fixed", "discrete", "satfile",
-          "fullend_day", "extended"]
-
-
-def passes(f, opts):
-    if f.path in opts.get("exclude_names", ()):
-        return False
-    for p0, p1 in opts.get("exclude_periods", ()):
-        if f.t0 <= p1 and f.t1 >= p0:
-            return False
-    wl = opts.get("white")
-    if wl is not None and f.attrs.get("sat") not in wl:
-        return False
-    bl = opts.get("black")
-    if bl is not None and f.attrs.get("sat") in bl:
-        return False
-    return True
+          "fullend_day", "extended", "satdir", "daysat", "yj", "y2j", "wild"]
+# templates that the quick tier runs in one window only: (window, largest
+# proper sub-population)
+QUICK = {"satdir": ("midnight", 0), "daysat": ("midnight", 0),
+         "yj": ("yearend", 1), "y2j": ("leapday", 1), "wild": ("midnight", 1)}
+# largest proper sub-population of the thorough tier where it is not 3
+THOROUGH_SIZE = {"satdir": 2, "daysat": 2}
 
 
 def acceptable(files, t, R, opts):
-    """-> (set of acceptable paths, none_ok)"""
-    cands = [f for f in files if passes(f, opts)]
+    """-> (set of acceptable paths, none_ok, candidates of the half-open
+    reading of the neighbourhood)"""
+    cands = [f for f in files if L.passes(f, opts)]
     readings = []
     if R is None:
         readings.append(cands)
@@ -80,26 +90,47 @@ def acceptable(files, t, R, opts):
     return ok, none_ok, readings[0]
 
 
-def option_sets(tname, files, single=False):
+# An option set is (label, filters, fileset-kwargs, oracle-opts). Keys of the
+# fileset-kwargs that start with "_" are directions for the harness:
+#   _primed  filters of earlier questions put to the same FileSet object
+#   _spell   the type in which t is handed over (L.spell)
+
+def option_sets(tname, files, whole, literal):
     out = [("none", None, {}, {})]
+    if whole:
+        out += [("t as " + how, None, dict(_spell=how), {})
+                for how in L.SPELLINGS]
     if L.TEMPLATES[tname].get("sat"):
-        out += [("white=A", {"sat": "A"}, {}, dict(white=["A"])),
-                ("white=B", {"sat": "B"}, {}, dict(white=["B"])),
-                ("black=A", {"!sat": "A"}, {}, dict(black=["A"]))]
+        A, B = dict(sat=["A"]), dict(sat=["B"])
+        out += [("white=A", {"sat": "A"}, {}, dict(white=A)),
+                ("white=B", {"sat": "B"}, {}, dict(white=B)),
+                ("black=A", {"!sat": "A"}, {}, dict(black=A))]
         # the same questions put to a FileSet object that has answered
-        # another one before (`_primed`: the filters of the earlier calls;
-        # what they cached must not leak into this answer)
+        # another one before (what that cached must not leak into this
+        # answer)
         out += [("white=B after white=A", {"sat": "B"},
-                 dict(_primed=[{"sat": "A"}]), dict(white=["B"])),
+                 dict(_primed=[{"sat": "A"}]), dict(white=B)),
                 ("white=A after white=[A,B]", {"sat": "A"},
-                 dict(_primed=[{"sat": ["A", "B"]}]), dict(white=["A"])),
+                 dict(_primed=[{"sat": ["A", "B"]}]), dict(white=A)),
                 ("none after white=A", None,
                  dict(_primed=[{"sat": "A"}]), {}),
                 ("white=A after none", {"sat": "A"},
-                 dict(_primed=[None]), dict(white=["A"])),
+                 dict(_primed=[None]), dict(white=A)),
                 ("black=A after black=B, white=A", {"!sat": "A"},
                  dict(_primed=[{"!sat": "B"}, {"sat": "A"}]),
-                 dict(black=["A"]))]
+                 dict(black=A))]
+        if literal:
+            # the placeholder declared with a literal pattern: only files of
+            # that value belong to the fileset, and the name of an instant
+            # can be computed without a filter
+            only_a = dict(placeholder={"sat": "A"})
+            out += [("sat:=A", None, only_a, dict(white=A)),
+                    ("sat:=A black=A", {"!sat": "A"}, only_a,
+                     dict(white=A, black=A)),
+                    ("sat:=A black=B", {"!sat": "B"}, only_a,
+                     dict(white=A, black=B)),
+                    ("sat:=A|B black=A", {"!sat": "A"},
+                     dict(placeholder={"sat": "A|B"}), dict(black=A))]
     off = 7 * (dt.timedelta(seconds=1) if tname == "ymdh" else L.MIN)
     for k, f in enumerate(files):
         out.append(("exclude#%d" % k, None, dict(exclude=[f.path]),
@@ -115,8 +146,9 @@ def option_sets(tname, files, single=False):
     return out
 
 
-def ask(fs, t, filters, via):
+def ask(fs, t, filters, via, how=None):
     from typhon.files.fileset import NoFilesError
+    t = L.spell(t, how)
     try:
         if via == "find_closest":
             got = fs.find_closest(t, filters=filters)
@@ -126,6 +158,10 @@ def ask(fs, t, filters, via):
             got = fs[t, filters]
     except NoFilesError:
         return None
+    except TypeError:
+        if how == "numpy":
+            return TypeError         # an undocumented type may be refused
+        raise
     return None if got is None else os.fspath(got)
 
 
@@ -133,44 +169,53 @@ def reader(file_info, **kw):
     return file_info.path
 
 
-def check_population(res, root, tname, files, instants, casebase):
+def check_population(res, root, tname, files, instants, casebase, whole,
+                     literal):
     from typhon.files import FileHandler
     R = L.LEVEL_PERIOD[L.TEMPLATES[tname]["level"]]
-    for label, filters, fs_kw, opts in option_sets(tname, files):
+    for label, filters, fs_kw, opts in option_sets(tname, files, whole,
+                                                   literal):
+        kw = dict(fs_kw)
+        primed = kw.pop("_primed", ())
+        how = kw.pop("_spell", None)
         for t in instants:
             ok, none_ok, W = acceptable(files, t, R, opts)
             nt = len(W) >= 2 or not any(f.t0 <= t <= f.t1 for f in W)
             for via in ("find_closest", "getitem"):
                 res.case(nontrivial=nt)
-                kw = dict(fs_kw)
-                primed = kw.pop("_primed", ())
-                fs = L.make_fileset(root, tname,
-                                    handler=FileHandler(reader=reader),
-                                    **kw)
-                for earlier in primed:
-                    try:
-                        ask(fs, t, earlier, via)
-                    except Exception:
-                        pass          # judged where it is the question
+                got, stage = None, "constructor"
                 try:
-                    got = ask(fs, t, filters, via)
+                    fs = L.make_fileset(root, tname,
+                                        handler=FileHandler(reader=reader),
+                                        **kw)
+                    stage = via
+                    for earlier in primed:
+                        try:
+                            ask(fs, t, earlier, via)
+                        except Exception as exc:
+                            # judged where it is the question
+                            L.not_the_watchdog(exc)
+                    got = ask(fs, t, filters, via, how)
                     err = None
                 except Exception as exc:
-                    got, err = None, exc
+                    L.not_the_watchdog(exc)
+                    err = exc
                 if err is not None:
-                    bad = ("%s/exception/%s" % (via, type(err).__name__),
+                    bad = ("%s/exception/%s" % (stage, type(err).__name__),
                            sorted(ok), repr(err)[:200])
+                elif got is TypeError or got in ok:
+                    bad = None
                 elif got is None:
                     bad = None if none_ok else (
                         via + "/none-although-files-nearby", sorted(ok), None)
-                elif got in ok:
-                    bad = None
                 else:
                     f = [x for x in files if x.path == got]
                     if not f:
                         key = "/unknown-file"
-                    elif not passes(f[0], opts):
-                        key = "/excluded-or-filtered-file-returned"
+                    elif not L.passes(f[0], dict(opts, white={}, black={})):
+                        key = "/excluded-file-returned"
+                    elif not L.passes(f[0], opts):
+                        key = "/filtered-file-returned"
                     elif any(x.t0 <= t <= x.t1 for x in W):
                         key = "/covering-file-ignored"
                     elif not ok:
@@ -180,7 +225,7 @@ def check_population(res, root, tname, files, instants, casebase):
                     bad = (via + key, sorted(ok), got)
                 if bad is not None:
                     res.violation(
-                        bad[0],
+                        bad[0] + ("[%s]" % label if how else ""),
                         dict(casebase, t=t, options=label, via=via,
                              template=L.TEMPLATES[tname]["rel"],
                              files=[x.rel for x in files]),
@@ -201,16 +246,22 @@ def instants_of(tname, wname):
 def shards(tier, seed):
     out = []
     for tname in TNAMES:
-        for wname in L.WINDOWS:
+        reduced = QUICK.get(tname) if tier == "quick" else None
+        for wname in (reduced[0],) if reduced else L.WINDOWS:
             n = len(L.pool(tname, wname))
-            if tier == "quick":
+            if reduced:
+                maxsize = reduced[1]
+            elif tier == "quick":
                 maxsize = 2 if wname == "yearend" else 1
             else:
-                maxsize = 3
+                maxsize = THOROUGH_SIZE.get(tname, 3)
             pops = list(L.populations(n, maxsize))
             chunk = 3 if tier == "quick" else 8
-            for i in range(0, len(pops), chunk):
-                out.append(("pop", tname, wname, pops[i:i + chunk]))
+            # the whole pool (most files, most option sets) has a shard of
+            # its own
+            out.append(("pop", tier, tname, wname, pops[:1]))
+            for i in range(1, len(pops), chunk):
+                out.append(("pop", tier, tname, wname, pops[i:i + chunk]))
     out.append(("single",))
     return out
 
@@ -219,16 +270,19 @@ def run_shard(shard):
     res = driver.ShardResult()
     if shard[0] == "single":
         return run_single(res)
-    _, tname, wname, pops = shard
+    _, tier, tname, wname, pops = shard
     pl = L.pool(tname, wname)
     root = driver.fresh_dir("c16")
     instants = instants_of(tname, wname)
     for idx in pops:
         sub = os.path.join(root, "p" + "_".join(map(str, idx)))
-        files = L.materialise(sub, tname, [pl[i] for i in idx])
+        files = L.materialise(sub, tname, [pl[i] for i in idx],
+                              dirs_only=() if idx else pl)
         check_population(res, sub, tname, files, instants,
                          dict(kind="pop", tname=tname, window=wname,
-                              population=idx))
+                              population=idx), whole=len(idx) == len(pl),
+                         literal=tier == "thorough"
+                         or len(idx) in (0, 1, len(pl)))
     res.sample(dict(template=L.TEMPLATES[tname]["rel"], window=wname,
                     population=[pl[i][3] for i in idx],
                     instants=len(instants)))
@@ -242,18 +296,22 @@ def run_single(res):
     fsbuild.touch(path)
     lat = L.lattice("ymd", "leapday")
     for cov in [(lat[3], lat[6]), None]:
-        for t in [lat[0], lat[4], lat[-1], dt.datetime(1970, 1, 1)]:
+        for t in lat + [dt.datetime(1970, 1, 1)]:
             for via in ("find_closest", "getitem"):
-                res.case(nontrivial=True)
-                fs = FileSet(path, time_coverage=cov, name="single",
-                             handler=FileHandler(reader=reader))
-                try:
-                    got = ask(fs, t, None, via)
-                except Exception as exc:
-                    got = repr(exc)[:200]
-                if got != path:
-                    res.violation("single/" + via, dict(kind="single", t=t,
-                                                        cov=cov), path, got)
+                for how in (None,) + L.SPELLINGS:
+                    res.case(nontrivial=True)
+                    try:
+                        fs = FileSet(path, time_coverage=cov, name="single",
+                                     handler=FileHandler(reader=reader))
+                        got = ask(fs, t, None, via, how)
+                    except Exception as exc:
+                        L.not_the_watchdog(exc)
+                        got = repr(exc)[:200]
+                    if got not in (path, TypeError):
+                        res.violation(
+                            "single/" + via + ("[t as %s]" % how if how
+                                               else ""),
+                            dict(kind="single", t=t, cov=cov), path, got)
     res.sample(dict(kind="single", coverage=[lat[3], lat[6]]))
     return res
 
@@ -266,10 +324,12 @@ def replay(case):
         tname, wname, idx = case["tname"], case["window"], case["population"]
         pl = L.pool(tname, wname)
         root = driver.fresh_dir("c16r")
-        files = L.materialise(root, tname, [pl[i] for i in idx])
+        files = L.materialise(root, tname, [pl[i] for i in idx],
+                              dirs_only=() if idx else pl)
         t = dt.datetime.fromisoformat(case["t"])
         check_population(res, root, tname, files, [t], dict(
-            kind="pop", tname=tname, window=wname, population=idx))
+            kind="pop", tname=tname, window=wname, population=idx),
+            whole=len(idx) == len(pl), literal=True)
     for v in res.violations:
         c = v["case"]
         if case["kind"] == "single" or (
